@@ -31,6 +31,11 @@ class BuiltinMixin:
             self.need(z3.Not(v.t.is_none(v.z)), 'TypeError')
             v = V(v.t.inner, v.t.val(v.z))
         if isinstance(v.t, TPkt):
+            hook = self.spec.callbacks.get('pkt_len')
+            if hook is not None:
+                r = hook(self, v)
+                if r is not None:
+                    return r
             f = z3.Function('pkt_len', z3.IntSort(), z3.IntSort())
             return mk_int(f(v.z))
         if v.t is TNone:
@@ -712,6 +717,14 @@ class BuiltinMixin:
                                             self.pkt_default_value(owner, fn, default, sc.fields[fn]))
                             return NONE
             raise Unsupported('delfieldval of unknown field %s' % fn)
+        if name == 'remove_payload':
+            last = self.pkt_layer_ref(pkt, 0)
+            layer = pkt.t.layers[0]
+            sc = self.pkt_schema(layer)
+            self.write_heap(last, ('pkt:' + layer, 'payload'), sc.fields['payload'], mk_int(0))
+            if '_pcls' in sc.fields:
+                self.write_heap(last, ('pkt:' + layer, '_pcls'), sc.fields['_pcls'], mk_int(0))
+            return NONE
         if name == 'copy':
             return self.pkt_copy(pkt)
         if name == 'guess_payload_class':
